@@ -269,7 +269,7 @@ def center(a):
 _REL_CACHE = {}
 
 
-def replay_jet(run, ob, model, resolutions=None, rtol=1e-6):
+def replay_jet(run, ob, model, resolutions=None, rtol=1e-6, history=None):
     """Run the real code with floats at two resolutions; the mismatch with the oracle value must
     stay above tolerance and must not shrink like a discretisation error."""
     resolutions = resolutions or getattr(run, 'resolutions', None) or ((13, 0.02), (13, 0.01))
@@ -280,8 +280,19 @@ def replay_jet(run, ob, model, resolutions=None, rtol=1e-6):
     mkey = hash(tuple(sorted((k, str(v)) for k, v in model.items())))
     for N, h in resolutions:
         ck = (id(run), mkey, N, h)
-        rel = None if ob.meta.get('fresh_rel') else _REL_CACHE.get(ck)
-        if ob.meta.get('fresh_rel'):
+        rel = None if (ob.meta.get('fresh_rel') or history is not None) else _REL_CACHE.get(ck)
+        if history is not None:
+            # the symbolic run read every obligation of the block from ONE instance after all of them had been
+            # requested: reproduce that request history (a cached entry modified in place by a later request)
+            rel = run.float_rel(model, N=N, h=h)
+            with np.errstate(all='ignore'):
+                for o in history:
+                    if o.get is not None and o.meta.get('run', run) is run:
+                        try:
+                            o.get(rel)
+                        except Exception:  # noqa
+                            pass
+        elif ob.meta.get('fresh_rel'):
             rel = run.float_rel(model, N=N, h=h)          # history-sensitive obligation: its own instance
         elif rel is None:
             if len(_REL_CACHE) > 8:
